@@ -234,6 +234,12 @@ func (ip *Inode) indbmap(atxn *alloctxn.AllocTxn, root_ common.Bnum, level uint6
 	nxtroot := buf.BnumGet(bo)
 	util.DPrintf(1, "%d next root %v level %d\n", root, nxtroot, level)
 	blkno, newnextroot := ip.indbmap(atxn, nxtroot, level-1, ind)
+	if blkno == common.NULLBNUM && root_ == common.NULLBNUM {
+		// nothing could be allocated below the index block allocated above:
+		// give it back instead of leaving an empty index block in the file
+		atxn.FreeBlock(root)
+		return common.NULLBNUM, common.NULLBNUM
+	}
 	atxn.AssertValidBlock(newnextroot)
 	atxn.AssertValidBlock(blkno)
 	if newnextroot != nxtroot {
